@@ -502,6 +502,71 @@ func jsonlinesOnce(res *vkit.Result, c jsCase) {
 	res.Eval(vkit.JSON(c), total > 0)
 }
 
+// jsonlinesNetSamples: the samples the HTTP and gRPC guns report (netsample.Sample, with tags and
+// error texts full of quotes, backslashes, line breaks and control characters — `Get "http://h/p":
+// EOF` is what a transport failure looks like) into the real jsonlines aggregator: whatever the
+// aggregator writes for such a sample, it is one line holding one valid JSON value per report.
+func jsonlinesNetSamples(res *vkit.Result) {
+	dest := tmpName(".jsonl")
+	defer vkit.RemoveMem(dest)
+	c := map[string]any{"aggregator": "jsonlines", "samples": "netsample.Sample with hostile tags and error texts", "goroutines": 4, "samples_each": 60}
+	aggr, err := realAggregator(map[string]any{"type": "jsonlines", "sink": map[string]any{"type": "file", "path": dest}, "flush-interval": "5ms"})
+	if err != nil {
+		res.Inconclusive(true, "jsonlines config rejected: %v", err)
+		return
+	}
+	ctx, cancel := context.WithCancel(context.Background())
+	defer cancel()
+	runErr := make(chan error, 1)
+	go func() { runErr <- aggr.Run(ctx, core.AggregatorDeps{Log: vkit.NopLog()}) }()
+	hostile := []string{`plain`, `quo"te`, `back\slash`, "line\nbreak", "tab\there", "ctl\x01\x1f", `Get "http://127.0.0.1:1/fail": EOF`,
+		`malformed HTTP response "\x00\x01garbage"`, `{"json":"inside"}`, "юникод ☃", `trailing\`, `"`, ``}
+	var wg sync.WaitGroup
+	for g := 0; g < 4; g++ {
+		wg.Add(1)
+		go func(g int) {
+			defer wg.Done()
+			for k := 0; k < 60; k++ {
+				s := netsample.Acquire(hostile[(g+k)%len(hostile)])
+				s.SetID(uint64(g*1000 + k + 1))
+				s.SetProtoCode(200)
+				if k%2 == 0 {
+					s.SetErr(errors.New(hostile[(g*7+k)%len(hostile)]))
+				}
+				s.AddTag(hostile[(k+3)%len(hostile)])
+				aggr.Report(s)
+			}
+		}(g)
+	}
+	wg.Wait()
+	cancel()
+	select {
+	case <-runErr:
+	case <-time.After(60 * time.Second):
+		res.Violate("C06/jsonlines/run-hang", "jsonlines Run did not return within 60 s after its context was cancelled", c)
+		return
+	}
+	data, _ := afero.ReadFile(vkit.Fs(), dest)
+	if len(data) == 0 || data[len(data)-1] != '\n' {
+		res.Violate("C06/jsonlines/net-samples/malformed", fmt.Sprintf("240 reports: the output is empty or does not end with a newline (%d bytes)", len(data)), c)
+		return
+	}
+	lines := strings.Split(string(data[:len(data)-1]), "\n")
+	for i, l := range lines {
+		dec := json.NewDecoder(strings.NewReader(l))
+		var v any
+		if err := dec.Decode(&v); err != nil || dec.More() {
+			res.Violate("C06/jsonlines/net-samples/malformed", fmt.Sprintf("line %d is not one valid JSON value (%v): %q", i+1, err, l), c)
+			break
+		}
+	}
+	if len(lines) != 240 {
+		res.Violate("C06/jsonlines/net-samples/count", fmt.Sprintf("240 reports, %d lines", len(lines)), c)
+	}
+	res.Count("jsonlines_net_sample_lines", int64(len(lines)))
+	res.Eval(vkit.JSON(c), true)
+}
+
 // ---------------------------------------------------------------- layer 2: engine level
 
 type repGun struct {
@@ -1088,6 +1153,7 @@ func main() {
 	rng := vkit.Rand("c06")
 	cancelUs := []int{-1, 0, 0, 20, 200, 2000, 20000}
 	emptyRun(res)
+	jsonlinesNetSamples(res)
 	scenarioEngine(res, 4, 200)
 	scenarioEngine(res, 1, 40)
 	// regression seeds first
